@@ -72,6 +72,30 @@ class ExecutionPlan:
                     "and compute frameworks. Please check your links."
                 )
 
+        self._validate_steps_do_not_wait_in_a_cycle()
+
+    def _validate_steps_do_not_wait_in_a_cycle(self) -> None:
+        """Steps that (transitively) wait for each other would never start and the run would never finish."""
+        # Simulate the run: a step can start once everything it waits for is finished; finishing it finishes its uuids.
+        finished: Set[UUID] = set()
+        remaining = list(self.execution_plan)
+        progress = True
+        while remaining and progress:
+            ready = [step for step in remaining if set(step.required_uuids) - step.get_uuids() <= finished]
+            progress = bool(ready)
+            for step in ready:
+                finished.update(step.get_uuids())
+            ready_ids = {id(step) for step in ready}
+            remaining = [step for step in remaining if id(step) not in ready_ids]
+
+        if remaining:
+            raise ValueError(
+                f"Execution plan contains steps that wait for each other in a cycle and could never start: "
+                f"{[str(step) for step in remaining]}. "
+                "This can happen when features of two feature groups depend on each other alternately or when links "
+                "between compute frameworks form a cycle."
+            )
+
     def add_feature_group_step(
         self,
         queue: PlannedQueue,
